@@ -27,6 +27,12 @@ pub struct Case {
     pub data: String,
     /// sizes in MiB, increasing
     pub sizes_mib: Vec<u64>,
+    /// interleaved (4 files x 16 runs) | oneblock (one file added in a single piece, as `mlar create` does)
+    #[serde(default)]
+    pub shape: String,
+    /// extraction: all | subset (only one of the files is exported, the others are skipped)
+    #[serde(default)]
+    pub subset: bool,
 }
 
 /// source generating bytes on the fly (no buffer proportional to the size)
@@ -72,9 +78,16 @@ fn config(layers: u8, level: u32) -> (ArchiveWriterConfig, [u8; 32]) {
     (c, sk)
 }
 
-fn write_archive<W: Write>(dest: W, layers: u8, level: u32, constant: bool, total: u64) -> Result<W, String> {
+fn write_archive<W: Write>(dest: W, layers: u8, level: u32, constant: bool, total: u64, oneblock: bool) -> Result<W, String> {
     let (c, _) = config(layers, level);
     let mut w = ArchiveWriter::from_config(dest, c).map_err(|e| e.to_string())?;
+    if oneblock {
+        // one big file in a single piece, plus a small one
+        w.add_file("file0", total, Gen { left: total, rng: Rng::new(1), constant }).map_err(|e| e.to_string())?;
+        w.add_file("file1", 1000, Gen { left: 1000, rng: Rng::new(2), constant }).map_err(|e| e.to_string())?;
+        w.finalize().map_err(|e| e.to_string())?;
+        return Ok(w.into_raw());
+    }
     let mut ids = Vec::new();
     for f in 0..FILES {
         ids.push(w.start_file(&format!("file{f}")).map_err(|e| e.to_string())?);
@@ -102,19 +115,21 @@ pub fn child(args: &[String]) {
     let constant = get("--data") == "constant";
     let mib: u64 = get("--mib").parse().unwrap_or(8);
     let scratch = get("--scratch");
+    let oneblock = get("--shape") == "oneblock";
+    let subset = get("--subset") == "1";
     let total = mib << 20;
     let t0 = std::time::Instant::now();
     let res: Result<(alloc::Stats, alloc::Stats, u64), String> = (|| {
         if op == "write" {
             let m0 = alloc::mark();
-            let d = write_archive(Discard(0), layers, level, constant, total)?;
+            let d = write_archive(Discard(0), layers, level, constant, total, oneblock)?;
             return Ok((m0, alloc::stats(), d.0));
         }
         // archive in a scratch file (not measured)
         let path = format!("{scratch}/c15-{}-{op}-{layers}-{level}-{mib}-{constant}.mla", std::process::id());
         {
             let f = io::BufWriter::new(std::fs::File::create(&path).map_err(|e| e.to_string())?);
-            let mut f = write_archive(f, layers, level, constant, total)?;
+            let mut f = write_archive(f, layers, level, constant, total, oneblock)?;
             f.flush().map_err(|e| e.to_string())?;
         }
         let (_, sk) = config(layers, level);
@@ -134,7 +149,12 @@ pub fn child(args: &[String]) {
             } else {
                 let m0 = alloc::mark();
                 let mut ar = ArchiveReader::from_config(file, drv::reader_config(&[sk])).map_err(|e| e.to_string())?;
-                let names: Vec<String> = ar.list_files().map_err(|e| e.to_string())?.cloned().collect();
+                let mut names: Vec<String> = ar.list_files().map_err(|e| e.to_string())?.cloned().collect();
+                names.sort();
+                if subset {
+                    // keep only the last (smallest, in the oneblock shape) file: the others are skipped
+                    names = names.split_off(names.len() - 1);
+                }
                 let mut export: HashMap<&String, Discard> = names.iter().map(|n| (n, Discard(0))).collect();
                 mla::helpers::linear_extract(&mut ar, &mut export).map_err(|e| e.to_string())?;
                 let n: u64 = export.values().map(|d| d.0).sum();
@@ -175,7 +195,16 @@ pub fn cases(ctx: &Ctx) -> Vec<Case> {
                     if level >= 9 && data == "random" {
                         s.retain(|m| *m <= 128);
                     }
-                    v.push(Case { op: op.into(), layers, level, data: data.into(), sizes_mib: s });
+                    for shape in ["interleaved", "oneblock"] {
+                        // the second shape on a reduced matrix
+                        if shape == "oneblock" && (data == "random" && level != levels[0]) {
+                            continue;
+                        }
+                        v.push(Case { op: op.into(), layers, level, data: data.into(), sizes_mib: s.clone(), shape: shape.into(), subset: false });
+                        if op == "extract" {
+                            v.push(Case { op: op.into(), layers, level, data: data.into(), sizes_mib: s.clone(), shape: shape.into(), subset: true });
+                        }
+                    }
                 }
             }
         }
@@ -215,7 +244,7 @@ pub fn run_case(ctx: &mut Ctx, c: &Case) {
             break;
         }
         let out = std::process::Command::new(&exe)
-            .args(["c15child", "--op", &c.op, "--layers", &c.layers.to_string(), "--level", &c.level.to_string(), "--data", &c.data, "--mib", &mib.to_string(), "--scratch", &scratch])
+            .args(["c15child", "--op", &c.op, "--layers", &c.layers.to_string(), "--level", &c.level.to_string(), "--data", &c.data, "--mib", &mib.to_string(), "--scratch", &scratch, "--shape", &c.shape, "--subset", if c.subset { "1" } else { "0" }])
             .stderr(std::process::Stdio::null())
             .output();
         let Ok(out) = out else { continue };
@@ -246,6 +275,7 @@ pub fn run_case(ctx: &mut Ctx, c: &Case) {
     }
     if results.len() >= 2 {
         ctx.count(&format!("growth_comparisons:{}", c.op));
+        ctx.count(&format!("shape:{}{}", if c.shape.is_empty() { "interleaved" } else { &c.shape }, if c.subset { ":subset_extraction" } else { "" }));
         let (m1, v1) = &results[0];
         let (m2, v2) = &results[results.len() - 1];
         let p1 = v1["peak_growth"].as_u64().unwrap_or(0);
